@@ -14,6 +14,7 @@ from __future__ import annotations
 import datetime as dt_
 import itertools
 
+from .. import worker
 from .. import core, obs, seeds
 from ..ref import calref, tzref
 
@@ -226,7 +227,8 @@ def run_shard(shard):
     if shard.get("kind") == "chains":
         from .. import chain
         for sd in shard["seeds"]:
-            chain.explore(acc, pendulum, sd["z"], sd["inst"], sd["zones"], shard["depth"], {'cal'})
+            with worker.guarded(acc, "chain", {"kind": "chain", "z": sd["z"], "inst": sd["inst"], "zones": sd["zones"]}, 300):
+                chain.explore(acc, pendulum, sd["z"], sd["inst"], sd["zones"], shard["depth"], {'cal'})
             acc.c["nontrivial"] += 1
         acc.sample({"chain_seed": [shard["seeds"][0]["z"], obs.iso(shard["seeds"][0]["inst"])], "depth": shard["depth"],
                     "zones": [str(z) for z in shard["seeds"][0]["zones"]],
@@ -245,10 +247,12 @@ def run_shard(shard):
                     if d >= 28:
                         acc.c["nontrivial"] += 1
                     for i, kw in enumerate(A):
-                        check_date(acc, pendulum, (y, m, d), kw)
+                        with worker.guarded(acc, "date-add", {"kind": "date", "f": [y, m, d], "kw": kw}):
+                            check_date(acc, pendulum, (y, m, d), kw)
                         for z in shard["zones"]:
-                            check_dt(acc, pendulum, z, (y, m, d, 13, 30, 15, 123456), kw,
-                                     durations=(i % 2 == d % 2) or shard["thorough"])
+                            with worker.guarded(acc, "add", {"kind": "dt", "z": z, "f": [y, m, d, 13, 30, 15, 123456], "kw": kw}):
+                                check_dt(acc, pendulum, z, (y, m, d, 13, 30, 15, 123456), kw,
+                                         durations=(i % 2 == d % 2) or shard["thorough"])
         acc.sample({"start": [shard["years"][0], 1, 31], "amount": A[9], "zones": [str(z) for z in shard["zones"]]})
     elif k == "dst-target":
         # starts chosen so that the target wall time is skipped / repeated
@@ -266,8 +270,9 @@ def run_shard(shard):
                         start = add_wall(tgt, kw, -1)
                         if start is None or add_wall(start, kw, 1) != tgt:
                             continue
-                        check_dt(acc, pendulum, z, start, kw, durations=True)
-                        check_dt(acc, pendulum, z, start, kw, durations=False, fold=0)
+                        with worker.guarded(acc, "add", {"kind": "dt", "z": z, "f": list(start), "kw": kw}):
+                            check_dt(acc, pendulum, z, start, kw, durations=True)
+                            check_dt(acc, pendulum, z, start, kw, durations=False, fold=0)
             acc.sample({"zone": z, "targets": "skipped/repeated wall times of its transitions"})
     return acc.result()
 
